@@ -4,8 +4,8 @@ import sys, os, shutil, json, re
 pid = sys.argv[1]
 rnd = int(sys.argv[2]) if len(sys.argv) > 2 else 1
 for k in (1, 2):
-    src = {1: '/tmp/wt-%s/mutants/m%d', 2: '/tmp/wt2-%s/mutants/m%d', 3: '/tmp/wt3-%s/mutants/m%d', 4: '/tmp/wt4-%s/mutants/m%d'}[rnd] % (pid, k)
-    log = {1: '/tmp/confirm-%s-m%d.log', 2: '/tmp/confirm2-%s-m%d.log', 3: '/tmp/confirm3-%s-m%d.log', 4: '/tmp/confirm4-%s-m%d.log'}[rnd] % (pid, k)
+    src = {1: '/tmp/wt-%s/mutants/m%d', 2: '/tmp/wt2-%s/mutants/m%d', 3: '/tmp/wt3-%s/mutants/m%d', 4: '/tmp/wt4-%s/mutants/m%d', 5: '/tmp/wt5-%s/mutants/m%d'}[rnd] % (pid, k)
+    log = {1: '/tmp/confirm-%s-m%d.log', 2: '/tmp/confirm2-%s-m%d.log', 3: '/tmp/confirm3-%s-m%d.log', 4: '/tmp/confirm4-%s-m%d.log', 5: '/tmp/confirm5-%s-m%d.log'}[rnd] % (pid, k)
     if not os.path.isdir(src) or not os.path.exists(log):
         print('missing', src, log); continue
     txt = open(log).read()
